@@ -19,7 +19,7 @@ PROPERTY = {
               '_package_groups: the line number handed to each chunk is the number of lines of all earlier chunks (part offsets are true line indices); '
               'text chunks are yielded as their joined lines and never packaged as code',
               'parse: tabs are expanded before the indentation is measured and before labelling (preconditions of the callees)'],
-        'B': ['the real freeform / google parsers on random docstrings: every (doctest line + part offset) points at the docstring line that holds the first source line of that part, and failed_lineno() at the statement that raised (bounded/c08_lines.py)'],
+        'B': ['the real parser on random docstrings whose lines are text / source / want BY CONSTRUCTION (prose, google labels, nested indentation 0/4/8, PS1 and PS2 continuations, bare ... terminators, multi-line wants, a want followed directly by a prompt, tabs): the parts laid end to end reproduce the tab-expanded, commonly de-indented docstring line for line (blank lines at the very end are not compared), every line has the label it was built with, every part records the index of its first line; and every (doctest line + part offset) points at the docstring line that holds the first source line of that part (bounded/c08_lines.py)'],
         'T': ['_complete_source (generator driving the tokenizer-based balance check): yields the line and one pair per further line it consumes',
               '_package_chunk (ast-based slicing)', 're.search spans of INDENT_RE (leading spaces of a non-blank line)'],
         'N/A': ['_group_labeled_lines (three passes over lists of (label, line) pairs and nested groups) is not under contract: that the grouping '
